@@ -50,7 +50,7 @@ type TLCJob struct {
 var (
 	reStates   = regexp.MustCompile(`(\d+) states generated, (\d+) distinct states found`)
 	reDepth    = regexp.MustCompile(`depth of the complete state graph search is (\d+)`)
-	reRejected = regexp.MustCompile(`"REJECTED at line", (\d+)`)
+	reRejected = regexp.MustCompile(`"REJECTED at line",\s*(\d+)`)
 	reInv      = regexp.MustCompile(`Invariant (\S+) is violated|Action property (\S+) is violated|Temporal properties were violated|property (\S+) is violated`)
 )
 
